@@ -113,24 +113,32 @@ def gen_partial():
     # ---- deferred.wait: the loop the model Model/WaitModel.v transliterates, and its `seen` bound -----------------
     tree, _ = parse("pdpy11/deferred.py")
     wait = find_def(tree, "wait")
-    need(len(wait.body) == 3, "deferred.wait: body changed")
+    need(len(wait.body) == 4, "deferred.wait: body changed")
     dump_eq(wait.body[0], "seen = []", "deferred.wait: seen")
-    loop = wait.body[1]
-    need(isinstance(loop, ast.While) and ast.unparse(loop.test) == "isinstance(deferred, BaseDeferred)" and len(loop.body) == 3 and not loop.orelse,
+    dump_eq(wait.body[1], "polynomial_steps = 0", "deferred.wait: polynomial_steps")
+    loop = wait.body[2]
+    need(isinstance(loop, ast.While) and ast.unparse(loop.test) == "isinstance(deferred, BaseDeferred)" and len(loop.body) == 5 and not loop.orelse,
          "deferred.wait: loop changed")
     chk = loop.body[0]
-    need(isinstance(chk, ast.If) and not chk.orelse and isinstance(chk.test, ast.BoolOp) and isinstance(chk.test.op, ast.Or) and len(chk.test.values) == 2,
+    need(isinstance(chk, ast.If) and not chk.orelse and isinstance(chk.test, ast.BoolOp) and isinstance(chk.test.op, ast.Or) and len(chk.test.values) == 3,
          "deferred.wait: cycle check changed")
-    lenchk = chk.test.values[0]
-    need(isinstance(lenchk, ast.Compare) and ast.unparse(lenchk.left) == "len(seen)" and len(lenchk.ops) == 1 and isinstance(lenchk.ops[0], ast.GtE),
-         "deferred.wait: length bound changed")
-    wait_bound = const_int(lenchk.comparators[0], "deferred.wait: bound")
-    need(0 < wait_bound <= 100000, "deferred.wait: implausible bound")
-    dump_eq(chk.test.values[1], "any(deferred is prev for prev in seen)", "deferred.wait: identity check")
+
+    def bound_of(cmp, left, what):
+        need(isinstance(cmp, ast.Compare) and ast.unparse(cmp.left) == left and len(cmp.ops) == 1 and isinstance(cmp.ops[0], ast.GtE), what + " changed")
+        b = const_int(cmp.comparators[0], what)
+        need(0 < b <= 100000, what + ": implausible bound")
+        return b
+    wait_bound = bound_of(chk.test.values[0], "len(seen)", "deferred.wait: length bound")
+    poly_bound = bound_of(chk.test.values[1], "polynomial_steps", "deferred.wait: polynomial step bound")
+    dump_eq(chk.test.values[2], "any(deferred is prev for prev in seen)", "deferred.wait: identity check")
     dump_eq(chk.body[0], "raise DeferredCycle()", "deferred.wait: raise")
     dump_eq(loop.body[1], "seen.append(deferred)", "deferred.wait: append")
-    dump_eq(loop.body[2], "deferred = deferred.wait()", "deferred.wait: step")
-    dump_eq(wait.body[2], "return deferred", "deferred.wait: return")
+    dump_eq(loop.body[2], "value = deferred.wait()", "deferred.wait: step")
+    dump_eq(loop.body[3], "if isinstance(deferred, LinearPolynomial) and isinstance(value, LinearPolynomial):\n    polynomial_steps += 1", "deferred.wait: counting")
+    dump_eq(loop.body[4], "deferred = value", "deferred.wait: advance")
+    dump_eq(wait.body[3], "return deferred", "deferred.wait: return")
+    stores = [n for n in ast.walk(wait) if isinstance(n, ast.Name) and n.id == "polynomial_steps" and isinstance(n.ctx, ast.Store)]
+    need(len(stores) == 2, "deferred.wait: polynomial_steps is assigned elsewhere")
     bd = find_class(tree, "BaseDeferred")
     dump_eq(find_def(bd, "wait"), "def wait(self):\n    with Awaiting(self):\n        return self._wait()", "BaseDeferred.wait")
     aw = find_class(tree, "Awaiting")
@@ -143,8 +151,8 @@ def gen_partial():
             "        self.settled = True\n        return self.value", "Deferred._wait")
     tc = find_class(tree, "TryCompute")
     need(ast.unparse(find_def(tc, "__exit__").body[-1]) == "return exc_type is NotReadyError or exc_type is DeferredCycle", "TryCompute.__exit__: what it swallows changed")
-    out += "(* deferred.wait: `if len(seen) >= <this> or any(deferred is prev for prev in seen): raise DeferredCycle()` *)\n"
-    out += f"Definition wait_seen_bound : nat := {wait_bound}%nat.\n\n"
+    out += "(* deferred.wait: `if len(seen) >= <N1> or polynomial_steps >= <N2> or any(deferred is prev for prev in seen): raise DeferredCycle()` *)\n"
+    out += f"Definition wait_seen_bound : nat := {wait_bound}%nat.\nDefinition wait_poly_bound : nat := {poly_bound}%nat.\n\n"
 
     # ---- chr(code) in AngleBracketedChar.resolve ------------------------------------------------------------
     tree, _ = parse("pdpy11/types.py")
